@@ -3,7 +3,7 @@
 import json, os, re
 HERE = os.path.dirname(os.path.dirname(os.path.abspath(__file__)))
 exp = json.load(open(os.path.join(HERE, 'selftest', 'expect.json')))
-rows = {1: [], 2: [], 3: [], 4: [], 5: [], 6: [], 7: []}
+rows = {1: [], 2: [], 3: [], 4: [], 5: [], 6: [], 7: [], 8: []}
 n = c = 0
 missed = []
 for sid in sorted(os.listdir(os.path.join(HERE, 'seeded'))):
@@ -25,13 +25,13 @@ for sid in sorted(os.listdir(os.path.join(HERE, 'seeded'))):
     c += bool(m['caught_by_target_check'])
     if not m['caught_by_target_check']:
         missed.append(sid)
-    rnd = 7 if sid.startswith('R7-') else 6 if sid.startswith('R6-') else 5 if sid.startswith('R5-') else 4 if sid.startswith('R4-') else 3 if sid.startswith('R3-') else 2 if sid.startswith('R2-') else 1
+    rnd = 8 if sid.startswith('R8-') else 7 if sid.startswith('R7-') else 6 if sid.startswith('R6-') else 5 if sid.startswith('R5-') else 4 if sid.startswith('R4-') else 3 if sid.startswith('R3-') else 2 if sid.startswith('R2-') else 1
     rows[rnd].append("| `%s` | %s | %s | %s | %s |" % (sid, m['breaks_property'], m['needs_to_manifest'].replace('|', '/'),
                                                    'yes' if m['caught_by_target_check'] else '**no** (arithmetic overflow only)', ' '.join(m['checks_that_fire']) or '-'))
 head = """# Independent breaking changes (sub-agents)
 
-Seven rounds of sub-agents (round 1 and 2: one per property, two changes each; round 3: one per pair of properties, two changes per property; rounds 4 and 5: one
-per area of the crate, four "refactorings with one subtle slip" each - round 5 written in exactly the styles the generalised models had just learnt to accept; rounds 6 and 7: one per pair of properties, asked for changes unlike the obvious ones), each given only the property text and a private worktree, were asked for a change
+Eight rounds of sub-agents (round 1 and 2: one per property, two changes each; round 3: one per pair of properties, two changes per property; rounds 4 and 5: one
+per area of the crate, four "refactorings with one subtle slip" each - round 5 written in exactly the styles the generalised models had just learnt to accept; rounds 6 and 7: one per pair of properties, asked for changes unlike the obvious ones; round 8: one per property for the eight properties with the fewest seeds so far, two changes each), each given only the property text and a private worktree, were asked for a change
 that breaks the property while the crate compiles and the 99 + 11 existing tests still pass, with a
 demonstration that fails with the change and passes without it. Every change below was re-confirmed by `tools/verify_seed.py` in a scratch worktree before being
 kept (`meta.json: confirmed`). `patch.diff` applies to /repo at the commit of the last `fix:`; `demo.rs` is an integration test (copy to `tests/`). None of these
@@ -44,7 +44,7 @@ them to scratch copies outside /repo. The last column is what the kill matrix (`
 """
 tbl = "| id | breaks | needs, in order to manifest | reported by the target check | all checks that fire |\n|----|--------|-----------------------------|------------------------------|----------------------|\n"
 body = ""
-for rnd in (1, 2, 3, 4, 5, 6, 7):
+for rnd in (1, 2, 3, 4, 5, 6, 7, 8):
     body += "## Round %d (%d changes)\n\n" % (rnd, len(rows[rnd])) + tbl + "\n".join(rows[rnd]) + "\n\n"
 tail = """%d of %d are reported by the check of the property they were written against (further fire-list entries are other properties the change also breaks, or
 checks that cannot extract their kernel from the changed code and fail closed). The %d that are not reported (%s) replace a formula by an algebraically identical
